@@ -192,7 +192,10 @@ func (e *Engine) DoOp(op *plan.Op, res *OpResult, mkctx func(int) context.Contex
 	case plan.OpGet:
 		if c := obj(); c != nil {
 			v := c.Get(op.Name)
-			if op.Late && !isScalar(v) {
+			if op.Raw {
+				val := RawValue(v.Object())
+				res.Val = &val
+			} else if op.Late && !isScalar(v) {
 				res.late = []*tengo.Variable{v}
 			} else {
 				val := FromGo(v.Value())
@@ -203,7 +206,12 @@ func (e *Engine) DoOp(op *plan.Op, res *OpResult, mkctx func(int) context.Contex
 	case plan.OpGetAll:
 		if c := obj(); c != nil {
 			vars := c.GetAll()
-			if op.Late {
+			if op.Raw {
+				res.Vars = plan.Vars{}
+				for _, v := range vars {
+					res.Vars[v.Name()] = RawValue(v.Object())
+				}
+			} else if op.Late {
 				res.late = vars
 			} else {
 				res.Vars = plan.Vars{}
